@@ -1,11 +1,10 @@
-\* one reader (readers do not influence each other), two calls, two ranges, Reset
 SPECIFICATION MCSpec
 CONSTANTS
   NK = 3
-  MaxW = 3
+  MaxW = 4
   Readers = {1}
   MaxCalls = 2
-  Ranges <- Ranges2
+  Ranges <- Ranges1
   VLens = {1}
   WithReset = TRUE
   CallOps = {"find", "iter"}
